@@ -33,7 +33,7 @@ def verify(src, name):
         feats = ["--features", "optim-mip"] if prop == "C18" else []
         demofeats = feats if prop == "C18" else (["--features", "verif-hooks"] if "verif_" in open(demo).read() else [])
         tdir = ["--target-dir", "/tmp/seedverify/target"]
-        if prop == "C17" and not os.environ.get("SEED_DEMO_DEBUG"):
+        if (prop == "C17" and not os.environ.get("SEED_DEMO_DEBUG")) or os.environ.get("SEED_DEMO_RELEASE"):
             demofeats = demofeats + ["--release"]  # profile differences only show in release builds
         # demo passes without the change
         os.makedirs(os.path.join(wt, "tests"), exist_ok=True)
